@@ -153,16 +153,96 @@ def build_compiled(specs, indices, workdir: Path):
     return res
 
 
+def spec_of(cls, index_of):
+    """class spec of an existing message/struct class, read off its descriptors"""
+    import inspect
+    from pyrtma.message_data import MessageData
+    fields = []
+    for fname, _ in cls._fields_:
+        pub = fname[1:] if fname.startswith("_") else fname
+        d = inspect.getattr_static(cls, pub)
+        k = type(d).__name__
+        if k in ("Int8", "Int16", "Int32", "Int64", "Uint8", "Uint16", "Uint32", "Uint64", "Float", "Double",
+                 "Byte", "Char"):
+            ts = [k]
+        elif k == "String":
+            ts = ["String", d.len]
+        elif k == "ByteArray":
+            ts = ["ByteArray", d._len]
+        elif k in ("IntArray", "FloatArray"):
+            ts = [k, type(d._validator).__name__, d._len]
+        elif k == "Struct":
+            ts = ["Struct", index_of[d._ctype]]
+        elif k == "StructArray":
+            ts = ["StructArray", index_of[d._validator._ctype], d._len]
+        else:
+            raise ValueError(f"{cls.__name__}.{pub}: unsupported descriptor {k}")
+        fields.append([pub, ts])
+    base = "data" if issubclass(cls, MessageData) else "struct"
+    return dict(name=cls.__name__, base=base, type_id=getattr(cls, "type_id", -1), fields=fields, imported=True)
+
+
+def import_classes(modnames, first_index):
+    """message/struct classes defined in the given modules (sorted by name), plus MessageHeader"""
+    import importlib
+    from pyrtma.message_base import MessageBase
+    found = []
+    for mn in modnames:
+        if mn == "header":
+            from pyrtma.header import MessageHeader
+            found.append(MessageHeader)
+            continue
+        try:
+            if mn.startswith("file:"):
+                import importlib.util as iu
+                path = mn[5:]
+                name = "vimp_" + os.path.basename(path).replace(".py", "")
+                with contextlib.redirect_stdout(io.StringIO()), contextlib.redirect_stderr(io.StringIO()):
+                    sp = iu.spec_from_file_location(name, path)
+                    mod = iu.module_from_spec(sp)
+                    sys.modules[name] = mod
+                    sp.loader.exec_module(mod)
+            else:
+                mod = importlib.import_module(mn)
+        except Exception:  # shipped definitions that do not import are another property's business
+            continue
+        cs = [c for _, c in sorted(vars(mod).items()) if isinstance(c, type) and issubclass(c, MessageBase)
+              and c.__module__ == mod.__name__ and c._fields_]
+        found += cs
+    index_of = {c: first_index + i for i, c in enumerate(found)}
+    specs = []
+    keep = []
+    for c in found:
+        try:
+            specs.append(spec_of(c, index_of))
+            keep.append(c)
+        except (KeyError, ValueError) as e:
+            specs.append(dict(name=c.__name__, base="struct", type_id=-1, fields=[], imported=True, skipped=str(e)))
+            keep.append(c)
+    return keep, specs
+
+
 def build_classes(job, workdir):
-    specs = job["classes"]
+    specs = [s for s in job["classes"] if not s.get("imported")]
     compiled = sorted(job.get("compiled", []))
     classes = {}
     if compiled:
-        classes.update(build_compiled(specs, compiled, workdir))
+        try:
+            classes.update(build_compiled(specs, compiled, workdir))
+        except Exception as e:  # the definition compiler is not under test here: fall back to direct construction
+            job["_compile_error"] = f"{type(e).__name__}: {e}"[:300]
+            classes = {}
     for i in range(len(specs)):
         if i not in classes:
             classes[i] = build_direct(specs, i, classes)
-    return [classes[i] for i in range(len(specs))]
+    out = [classes[i] for i in range(len(specs))]
+    if job.get("imports"):
+        cs, ispecs = import_classes(job["imports"], len(specs))
+        out += cs
+        job["_all_specs"] = specs + ispecs
+    else:
+        job["_all_specs"] = specs
+    return out
 
 
 def layout(cls):
@@ -508,9 +588,11 @@ def main():
     workdir = Path(tempfile.mkdtemp(prefix="vvalues_"))
     out = {}
     try:
-        classes = build_classes(job, workdir) if job.get("classes") else []
+        classes = build_classes(job, workdir) if (job.get("classes") or job.get("imports")) else []
         if job.get("layout"):
             out["layout"] = [layout(c) for c in classes]
+            out["specs"] = job.get("_all_specs", [])
+            out["compile_error"] = job.get("_compile_error")
         # every op in a fresh context, so that a leaked flag cannot contaminate later observations
         out["ops"] = [contextvars.Context().run(run_op, op, classes) for op in job.get("ops", [])]
         out["flags"] = [run_flag_script(s["script"], s["threads"]) for s in job.get("flags", [])]
